@@ -107,12 +107,12 @@ func only(group string, n int) int {
 }
 
 func body(w *run.Worker) {
-	w.Cases("write_direct", only("write_direct", w.N(2000, 20000)), func(c *run.Case) { caseWriteDirect(c, w) })
-	w.Cases("read_direct", only("read_direct", w.N(1200, 8000)), func(c *run.Case) { caseReadDirect(c, w) })
+	w.Cases("write_direct", only("write_direct", w.N(2000, 50000)), func(c *run.Case) { caseWriteDirect(c, w) })
+	w.Cases("read_direct", only("read_direct", w.N(1200, 20000)), func(c *run.Case) { caseReadDirect(c, w) })
 	// Every offset of every small size: sizes are dealt round-robin to the workers.
 	maxSize := 31
 	if w.Thorough() {
-		maxSize = 95
+		maxSize = 127
 	}
 	perWorker := (maxSize + 1 + w.Workers - 1) / w.Workers
 	complete := true
@@ -124,14 +124,14 @@ func body(w *run.Worker) {
 		caseReadExhaustive(c, w, size)
 	})
 	w.Exhaustive("read_offsets_of_small_objects", complete)
-	w.Cases("batch_direct", only("batch_direct", w.N(800, 6000)), func(c *run.Case) { caseBatch(c, w, nil) })
-	w.Cases("batch_wire", only("batch_wire", w.N(96, 600)), func(c *run.Case) {
+	w.Cases("batch_direct", only("batch_direct", w.N(800, 15000)), func(c *run.Case) { caseBatch(c, w, nil) })
+	w.Cases("batch_wire", only("batch_wire", w.N(96, 1500)), func(c *run.Case) {
 		env := newWireEnv(c.Rng, true)
 		defer env.drain()
 		caseBatch(c, w, env)
 	})
-	w.Cases("write_wire", only("write_wire", w.N(320, 2000)), func(c *run.Case) { caseWriteWire(c, w) })
-	w.Cases("b2b", only("b2b", w.N(200, 1600)), func(c *run.Case) { caseBackToBack(c, w) })
-	w.Cases("ac", only("ac", w.N(96, 500)), func(c *run.Case) { caseActionCache(c, w) })
-	w.Cases("concurrent", only("concurrent", w.N(16, 80)), func(c *run.Case) { caseConcurrent(c, w) })
+	w.Cases("write_wire", only("write_wire", w.N(320, 5000)), func(c *run.Case) { caseWriteWire(c, w) })
+	w.Cases("b2b", only("b2b", w.N(200, 4000)), func(c *run.Case) { caseBackToBack(c, w) })
+	w.Cases("ac", only("ac", w.N(96, 1200)), func(c *run.Case) { caseActionCache(c, w) })
+	w.Cases("concurrent", only("concurrent", w.N(16, 200)), func(c *run.Case) { caseConcurrent(c, w) })
 }
